@@ -594,12 +594,12 @@ func cmdGen(args []string) error {
 	quick := *tier == "quick"
 
 	sample, nrand := 14, 10
-	cfg := genCfg{walks: 2, walkLen: 6, twins: 1}
+	cfg := genCfg{walks: 3, walkLen: 7, twins: 2}
 	reps := 1
 	if !quick {
-		sample, nrand = 60, 40
+		sample, nrand = 80, 40
 		cfg = genCfg{walks: 6, walkLen: 10, twins: 4}
-		reps = 3
+		reps = 5
 	}
 	var unis []*Universe
 	var hists []History
